@@ -74,6 +74,12 @@ pub fn family_check(w: &mut World, k: u16, r: &RetSig) {
         (c.fam, c.home)
     };
     let kind = r.kind;
+    // A Pending return in whose poll the task's latest waker was invoked is a cooperative yield: the
+    // combinator has asked to be polled again, so "None when the last input has ended" / "None exactly
+    // when empty" are not violated yet (they are if the next poll does the same without a wake-up, or at
+    // quiescence). Clauses that the property ties to "the very poll" (join, try_join, race, race_ok, zip's
+    // end, an available item of merge / a group, wait_until) do not use this.
+    let yielded = kind == RK::Pending && w.combs[k as usize].woken;
     macro_rules! bad {
         ($($arg:tt)*) => {{ let m = format!($($arg)*); w.violate(home, || format!("{:?}#{}: {}", fam, k, m)); return; }};
     }
@@ -199,7 +205,7 @@ pub fn family_check(w: &mut World, k: u16, r: &RetSig) {
             let all = w.combs[k as usize].children.iter().all(|&c| w.children[c as usize].finished);
             match kind {
                 RK::Pending => {
-                    if all {
+                    if all && !yielded {
                         bad!("returned Pending although every input has ended");
                     }
                 }
@@ -262,6 +268,7 @@ pub fn family_check(w: &mut World, k: u16, r: &RetSig) {
                         bad!("current input is pending but the poll returned {:?}", kind);
                     }
                 }
+                _ if yielded => {}
                 _ => {
                     if all {
                         if kind != RK::End {
@@ -292,7 +299,7 @@ pub fn family_check(w: &mut World, k: u16, r: &RetSig) {
             let empty = w.combs[k as usize].children.is_empty();
             match kind {
                 RK::Pending => {
-                    if empty {
+                    if empty && !yielded {
                         bad!("returned Pending although the group is empty");
                     }
                 }
@@ -327,7 +334,7 @@ pub fn family_check(w: &mut World, k: u16, r: &RetSig) {
             let empty_now = w.combs[k as usize].children.is_empty();
             match kind {
                 RK::Pending => {
-                    if empty_now {
+                    if empty_now && !yielded {
                         bad!("returned Pending although no members remain");
                     }
                 }
